@@ -273,6 +273,11 @@ def run_srv():
         if "error" in sinfo:
             res.update(status="untranslatable", detail=sinfo["error"])
             return res
+        import translate_summ
+        minfo = translate_summ.main()
+        if "error" in minfo:
+            res.update(status="untranslatable", detail=minfo["error"])
+            return res
         info = translate_srv.main()
         if "error" in info:
             res.update(status="untranslatable", detail=info["error"])
@@ -281,7 +286,7 @@ def run_srv():
         res["dropped_statements"] = info["dropped"]
         key = _cache_key(translate_srv.OUT, ["PySrv.lean", "Core.lean", "Store.lean", "Sys.lean", "Sql.lean", "GeneratedSql.lean",
                                              "Tie/Srv.lean", "Tie/SrvStmts.lean", "Tie/SrvAll.lean", "Tie/Defs.lean",
-                                             "Tie/MailboxOpen.lean", "Tie/Messages.lean", "Tie/Claim.lean", "Tie/Release.lean", "Tie/MailboxClose.lean", "Tie/SrvWs.lean", "PyWs.lean"])
+                                             "Tie/MailboxOpen.lean", "Tie/Messages.lean", "Tie/Claim.lean", "Tie/Release.lean", "Tie/MailboxClose.lean", "Tie/SrvWs.lean", "PyWs.lean", "PySum.lean", "GeneratedSumm.lean"])
         hit = _cache_get("srv", key)
         if hit is not None:
             hit["cached"] = True
